@@ -180,6 +180,41 @@ class EqGuard:
         return edges
 
 
+def result_ok_edges(view, rx):
+    """[(edges, call block, call term)]: for every call matching rx that returns a Result, the edges taken when it returned
+    Ok, however the caller tests it: `helper(..)?`, `match helper(..) { Ok(..) => .., Err(e) => return Err(e) }`,
+    `if let Err(e) = helper(..) { return .. }`, `if helper(..).is_err() { return .. }`."""
+    out = []
+    seen = set()
+    for b in sorted(view.live_blocks()):
+        te = try_edges(view, b)
+        if te:
+            cont, brk, bblock, inner = te
+            for o in view.origins_of_operand(inner, at=view.at_term(bblock)):
+                if o.kind == "call" and rx.search(o.a) and o.b and o.b.startswith(view.path + ":bb"):
+                    hb = int(o.b.rsplit(":bb", 1)[1])
+                    out.append((cont, hb, view.blocks[hb]["t"]))
+                    seen.add((b, hb))
+    for b, c, _ in switch_conds(view):
+        if c.kind == "discr" and (c.enum or "").endswith("result::Result") and c.__dict__.get("variants"):
+            with view.opaque(r"as std::ops::Try>::branch$"):
+                os_ = view.origins_of_place(c.pl, at=c.at)
+            for o in os_:
+                if o.kind == "call" and rx.search(o.a) and not o.proj and o.b and o.b.startswith(view.path + ":bb"):
+                    hb = int(o.b.rsplit(":bb", 1)[1])
+                    inv = {n: val for val, n in c.variants.items()}
+                    t = view.blocks[b]["t"]
+                    okt = [tgt for val, tgt in t["targets"] if val == inv.get("Ok")] or [t["otherwise"]]
+                    out.append(([(b, x) for x in okt], hb, view.blocks[hb]["t"]))
+        elif c.kind == "call" and re.search(r"^std::result::Result::(is_ok|is_err)$", c.callee) and c.term["args"]:
+            for o in view.origins_of_operand(c.term["args"][0], at=view.at_term(c.block)):
+                if o.kind == "call" and rx.search(o.a) and not o.proj and o.b and o.b.startswith(view.path + ":bb"):
+                    hb = int(o.b.rsplit(":bb", 1)[1])
+                    te_, fe_ = cmp_true_false_edges(view, b, c)
+                    out.append((te_ if (c.callee.endswith("is_ok") != bool(c.neg)) else fe_, hb, view.blocks[hb]["t"]))
+    return out
+
+
 class HelperGuard:
     """Pass edge = Continue edge of `helper(..)?` (or the true edge of a bool helper), when the
     helper call satisfies `arg_check(model, chain, view, block, term)`."""
@@ -192,16 +227,9 @@ class HelperGuard:
 
     def pass_edges(self, model, chain, view):
         edges = []
-        for b in sorted(view.live_blocks()):
-            te = try_edges(view, b)
-            if te:
-                cont, brk, bblock, inner = te
-                os_ = view.origins_of_operand(inner, at=view.at_term(bblock))
-                for o in os_:
-                    if o.kind == "call" and self.rx.search(o.a):
-                        _, hb, t = site_term(model, o)
-                        if self.arg_check is None or self.arg_check(model, chain, view, hb, t):
-                            edges += cont
+        for ok_e, hb, t in result_ok_edges(view, self.rx):
+            if self.arg_check is None or self.arg_check(model, chain, view, hb, t):
+                edges += ok_e
         for b, cond, _ in switch_conds(view):
             if cond.kind == "call" and self.rx.search(cond.callee):
                 if self.arg_check is None or self.arg_check(model, chain, view, cond.block, cond.term):
